@@ -6252,6 +6252,7 @@ class Query(object):
         sql, arguments, attr_offsets, query_key = query._construct_sql_and_arguments(
             aggr_func_name=aggr_func_name, aggr_func_distinct=distinct, sep=sep)
         cache = query._database._get_cache()
+        cache.prepare_connection_for_query_execution()  # may clear cache.query_results
         try: result = cache.query_results[query_key]
         except KeyError:
             cursor = query._database._exec_sql(sql, arguments)
